@@ -2,6 +2,7 @@
 # usage: tools/seedrun.sh <worktree> <patch> <prop> [more props]
 # applies patch in the scratch worktree, runs checks against it, reverts.
 wt=$1; patch=$2; shift 2
+[ -f "${patch%patch.diff}patch.rebased.diff" ] && patch="${patch%patch.diff}patch.rebased.diff"
 git -C $wt checkout -q -- . && git -C $wt apply $patch || { echo "APPLY FAILED $patch"; exit 9; }
 for p in "$@"; do
   /verif/check $p --repo $wt --quiet 2>&1 | grep -E "VIOLATION|rule |ANALYSIS-ERROR|KNOWN" | head -8
